@@ -162,6 +162,44 @@ fn run_manager_single_seq(events: &[MEv], seen: &mut HashSet<&'static str>) {
     }
 }
 
+/// The managed book is SHARED (Arc<RwLock<OrderBook>>): a consumer may be reading it (a depth snapshot, say) at the moment the manager wants to apply
+/// an event. The event must still be applied - after the reader has let go - never dropped. The manager runs on its own thread over a channel; the
+/// reader holds a read guard while an update is sent. Whatever the timing, on the tree as found every event ends up applied (the manager WAITS for the
+/// lock), so this cannot raise an alarm by timing alone.
+fn run_manager_with_reader(seen: &mut HashSet<&'static str>) {
+    let books = OrderBookMapSingle::new(11u32, Arc::new(Default::default()));
+    let book = books.find(&11u32).expect("own instrument");
+    let (tx, rx) = futures::channel::mpsc::unbounded::<Event<ExchangeId, MarketEvent<u32, OrderBookEvent>>>();
+    let manager = { let books = books.clone(); std::thread::spawn(move || futures::executor::block_on(OrderBookL2Manager { stream: Box::pin(rx), books }.run())) };
+    let item = |n: i64, snapshot: bool, seq: u64, bids: &[(i64, i64)], asks: &[(i64, i64)]| {
+        let ob = OrderBook::new(seq, None, levels(bids), levels(asks));
+        let t = chrono::DateTime::<chrono::Utc>::from_timestamp(1_700_000_000 + n, 0).unwrap();
+        Event::Item(MarketEvent { time_exchange: t, time_received: t, exchange: ExchangeId::BinanceSpot, instrument: 11u32, kind: if snapshot { OrderBookEvent::Snapshot(ob) } else { OrderBookEvent::Update(ob) } })
+    };
+    let evs: [(bool, u64, Vec<(i64, i64)>, Vec<(i64, i64)>); 3] = [(true, 1, vec![(100, 2), (99, 1)], vec![(101, 1)]), (false, 2, vec![(100, 0), (98, 7)], vec![(101, 3)]), (false, 3, vec![(97, 1)], vec![(102, 1)])];
+    let mut model: Model = (BTreeMap::new(), BTreeMap::new(), 0);
+    for (snapshot, seq, b, a) in &evs { apply_model(&mut model, *snapshot, *seq, b, a); }
+    let _ = tx.unbounded_send(item(0, evs[0].0, evs[0].1, &evs[0].2, &evs[0].3));
+    // wait (bounded) until the snapshot has been applied, then read the book while the next update arrives
+    for _ in 0..2000 { if book.read().sequence == 1 { break; } std::thread::sleep(std::time::Duration::from_millis(1)); }
+    {
+        let guard = book.read();
+        let _ = tx.unbounded_send(item(1, evs[1].0, evs[1].1, &evs[1].2, &evs[1].3));
+        std::thread::sleep(std::time::Duration::from_millis(60));
+        drop(guard);
+    }
+    let _ = tx.unbounded_send(item(2, evs[2].0, evs[2].1, &evs[2].2, &evs[2].3));
+    drop(tx);
+    let _ = manager.join();
+    let got = book.read().clone();
+    if let Some((label, obs, exp)) = check(&got, &model).into_iter().next() {
+        let label: &'static str = match label { "C05.bounded.bids_equal_map" | "C05.bounded.asks_equal_map" | "C05.bounded.sequence_of_last_event" => "C05.bounded.managed_book_equals_map_after_every_event", l => l };
+        if seen.insert(label) {
+            report(label, "through OrderBookL2Manager::run (own thread, OrderBookMapSingle); stream: Snapshot(seq=1, bids=[(100,2),(99,1)], asks=[(101,1)]) ; Update(seq=2, bids=[(100,0),(98,7)], asks=[(101,3)]) sent WHILE a consumer holds a read lock on the shared book for 60 ms ; Update(seq=3, bids=[(97,1)], asks=[(102,1)]) ; end of stream".into(), obs, exp);
+        }
+    }
+}
+
 pub fn run(seed: u64, thorough: bool) -> u64 {
     let mut seen = HashSet::new();
     let mut n = 0u64;
@@ -244,6 +282,7 @@ pub fn run(seed: u64, thorough: bool) -> u64 {
             }
         }
     }
+    run_manager_with_reader(&mut seen); n += 1;
     // the consumer loop (OrderBookL2Manager): crafted sequence-number patterns, then seeded random streams
     {
         let up = |i: usize, q: u64, b: Vec<(i64, i64)>, a: Vec<(i64, i64)>| -> MEv { (i, false, q, b, a) };
